@@ -157,19 +157,31 @@ def run(index, tier="quick", seed=0) -> Result:
                 centred = any(isinstance(t, tuple) and t[0] == "getter" and t[1] in ("center", "centroid") for t in cen.tags)
                 reds = [x for x in r["events"] if x.type == "reduce" and len(x.path) == 1]
                 fns = [x.fn for x in reds]
+                def _len_like(x):
+                    # a distance or a squared distance (the root is monotonic: max / min commute with it)
+                    return bool(x.target.tags & {"norm", "sumsq"})
+
+                def _pp(x):
+                    return any(isinstance(t, tuple) and t == ("ret", "_point_plane_distances") for t in x.target.tags)
                 if name.startswith("minimal"):
-                    shape_ok = any(x.fn in ("max", "amax") and "norm" in x.target.tags for x in reds)
+                    shape_ok = any(x.fn in ("max", "amax") and _len_like(x) for x in reds)
+                    wrong = any(x.fn in ("min", "amin", "mean", "average") and _len_like(x) for x in reds) and not shape_ok
                     descr = "max of ||v - center||"
                 else:
-                    shape_ok = any(x.fn in ("max", "amax") and any(isinstance(t, tuple) and t == ("ret", "_point_plane_distances") for t in x.target.tags) for x in reds) \
-                        or any(x.fn in ("min", "amin") and "norm" in x.target.tags for x in reds)
+                    shape_ok = any(x.fn in ("max", "amax") and _pp(x) and "negated" not in x.target.tags for x in reds) \
+                        or any(x.fn in ("min", "amin") and _pp(x) and "negated" in x.target.tags for x in reds) \
+                        or any(x.fn in ("min", "amin") and _len_like(x) for x in reds)
+                    wrong = (any(x.fn in ("max", "amax", "mean", "average") and _len_like(x) for x in reds)
+                             or any(x.fn in ("min", "amin") and _pp(x) and "negated" not in x.target.tags for x in reds)) and not shape_ok
                     descr = "-max(signed plane distances) or min(edge distances)"
                 if centred and shape_ok:
                     res.ok("CEN-1", k, sample={"ball": k, "radius": descr})
                 elif not centred:
                     res.bad("CEN-1", k + ":center", where, f"{k}: a centred ball must be constructed about self.center / self.centroid")
-                else:
+                elif wrong:
                     res.bad("CEN-1", k + ":radius", where, f"{k}: radius is not {descr} (reductions found: {fns})")
+                else:
+                    raise AnalysisError(f"CEN-1: the radius of {k} is computed in a form the analysis does not recognise (reductions found: {fns})")
     # ---------------------------------------------------------------- EX-1 / EX-2
     nex = 0
     for cname, member, dim in (("Polygon", "circumcircle", 2), ("Polygon", "incircle", 2), ("Polyhedron", "circumsphere", 3), ("Polyhedron", "insphere", 3)):
